@@ -32,20 +32,22 @@ func (a *config) MergeSpoc(d deviceconf.Config) deviceconf.Config {
 				errlog.Abort("Must not redefine chain %q of table %q from rawdata",
 					cName, tName)
 			}
+			// Prepend rules by default.
+			// Insert rules marked with [APPEND] before trailing DROP rules
+			// of chain from Netspoc.
+			i := len(aChain.rules)
+			for i > 0 && aChain.rules[i-1].pairs["-j"] == "DROP" {
+				i--
+			}
+			top := 0
 			for _, ru := range bChain.rules {
-				i := 0
 				if ru.append {
-					// Append before last non DROP line.
-					i = len(aChain.rules)
-					for i > 0 {
-						if aChain.rules[i-1].pairs["-j"] == "DROP" {
-							i--
-						} else {
-							break
-						}
-					}
+					aChain.rules = slices.Insert(aChain.rules, i, ru)
+				} else {
+					aChain.rules = slices.Insert(aChain.rules, top, ru)
+					top++
 				}
-				aChain.rules = slices.Insert(aChain.rules, i, ru)
+				i++
 			}
 		}
 	}
